@@ -36,7 +36,7 @@ try:
     tests = "tests/test_samples.py tests/test_utils.py tests/test_transforms.py tests/test_history.py tests/test_plot.py tests/test_flows tests/integration_tests"
     res = {}
     for label, root in (("patched", d),):
-        rr = subprocess.run(f"cd {root} && PYTHONPATH={root}/src /venv/bin/python -m pytest {tests} -q -p no:cacheprovider --no-cov -n 10 --timeout=900 2>&1 | tail -1", shell=True, capture_output=True, text=True, env=env)
+        rr = subprocess.run(f"cd {root} && PYTHONPATH={root}/src /venv/bin/python -m pytest {tests} -q -p no:cacheprovider --no-cov -n 4 --timeout=1800 2>&1 | tail -1", shell=True, capture_output=True, text=True, env=env)
         res[label] = rr.stdout.strip()
     meta["tests_patched"] = res["patched"]
     meta["tests_unchanged_expected"] = "205 failed, 279 passed, 64 xfailed"
